@@ -114,11 +114,15 @@ def build(job):
             eng.assume(And(z3.InRe(_s(c1), ows), z3.InRe(_s(c2), ows)) if params["ows"] else And(_s(c1) == z3.StringVal(""), _s(c2) == z3.StringVal("")))
             hdr = hdr + c1 + "," + c2 + p
         got = utils.handle_header(hdr)
+        other_default = SUPPORTED[2]
+        got2 = utils.handle_header(hdr, other_default)      # the caller's own default must only matter when nothing is supported
         canon = [t if t in SUPPORTED else SYN.get(t) for t in types_]
         sup = [i for i in range(k) if canon[i] is not None]
         if not sup:
             eng.expect(sym_eq(got, DEFAULT), "no supported media type in the header, but the default was not returned")
+            eng.expect(sym_eq(got2, other_default), "no supported media type in the header, but the caller's default was not returned")
             return "default"
+        eng.expect(sym_eq(got, got2), "the choice among supported media types depends on the default argument")
         # a result type may be named twice (directly and through a synonym): its weight is then the larger of the two
         def weight(i):
             same = [j for j in sup if canon[j] == canon[i]]
